@@ -40,4 +40,22 @@ def Res.isSlow {α} : Res α → Bool
   | .slow _ => true
   | _ => false
 
+/-! ### printing (for the line-protocol driver) -/
+
+def showBV {w : Nat} (v : BitVec w) : String := toString v.toNat
+def showBool (b : Bool) : String := if b then "1" else "0"
+
+def showCall (c : SlowCall) : String :=
+  s!"slow {c.name} {showBool c.negated}" ++ String.join (c.args.map fun a => " " ++ toString a.toNat)
+
+def showResBV {w : Nat} : Res (BitVec w) → String
+  | .fast v => s!"fast {v.toNat}"
+  | .slow c => showCall c
+  | .raise e v => s!"raise {e} {v.toNat}"
+
+def showResBool : Res Bool → String
+  | .fast v => s!"fast {showBool v}"
+  | .slow c => showCall c
+  | .raise e v => s!"raise {e} {showBool v}"
+
 end CSem
